@@ -512,21 +512,23 @@ Definition stage1 (inp : list N) : res (Z * list N) :=
     match e with
     | [] => Err
     | _ => match parse_int 32 e with
-           | Some tmp => Ok (wrap32 tmp, m)
+           | Some tmp => Ok (tmp, m)
            | None => Err
            end
     end
   | None => Ok (0, inp)
   end.
 Definition parse_mant (exponent : Z) (inp1 : list N) : res dec :=
-  let '(exponent2, inp2) :=
+  do '(exponent2, inp2) <-
     match split_first is_dot inp1 with
-    | Some (ipart, fpart) => (wrap32 (exponent - wrap32 (zlen fpart)), ipart ++ fpart)
-    | None => (exponent, inp1)
-    end in
+    | Some (ipart, fpart) =>
+      let e2 := wrap64 (exponent - wrap64 (zlen fpart)) in
+      if e2 <? min_i32 then Err else Ok (e2, ipart ++ fpart)
+    | None => Ok (exponent, inp1)
+    end;
   match set_string inp2 with
   | None => Err
-  | Some n => Ok (new_decimal n exponent2 ((n =? 0) && starts_minus inp2))
+  | Some n => Ok (new_decimal n (wrap32 exponent2) ((n =? 0) && starts_minus inp2))
   end.
 
 Lemma dec_parse_unfold inp : inp <> [] ->
@@ -663,28 +665,42 @@ Lemma stage1_exp a e : Forall (fun x => is_dD x = false) a -> min_i32 <= e <= ma
 Proof.
   intros Ha He. unfold stage1. rewrite split_first_hit by (auto; reflexivity).
   pose proof (zstr_nonnil e) as Hn. destruct (zstr e) eqn:Z; [congruence|]. rewrite <- Z.
-  rewrite parse_int32_zstr by exact He. rewrite wrap32_id by exact He. reflexivity.
+  rewrite parse_int32_zstr by exact He. reflexivity.
 Qed.
 
 Definition parsed (str : list N) (e : Z) : res dec :=
   match set_string str with
   | None => Err
-  | Some n => Ok (new_decimal n e ((n =? 0) && starts_minus str))
+  | Some n => Ok (new_decimal n (wrap32 e) ((n =? 0) && starts_minus str))
   end.
 
 Lemma parse_mant_nodot e str : plain str -> parse_mant e str = parsed str e.
 Proof. intros H. unfold parse_mant. rewrite split_first_miss by (apply plain_no_dot, H). reflexivity. Qed.
 
-Lemma parse_mant_dot e ip fp : plain ip ->
-  parse_mant e (ip ++ c_dot :: fp) = parsed (ip ++ fp) (wrap32 (e - wrap32 (zlen fp))).
+(* the fraction digits lower the exponent in int64; below MinInt32 is an error, never a wrap *)
+Lemma parse_mant_dot e ip fp : plain ip -> min_i32 <= e <= max_i32 -> zlen fp < two63z - two31 ->
+  parse_mant e (ip ++ c_dot :: fp) =
+  if e - zlen fp <? min_i32 then Err else parsed (ip ++ fp) (e - zlen fp).
 Proof.
-  intros H. unfold parse_mant. rewrite split_first_hit by (try apply plain_no_dot, H; reflexivity). reflexivity.
+  intros H He Hl. unfold parse_mant. rewrite split_first_hit by (try apply plain_no_dot, H; reflexivity).
+  cbv zeta. assert (L0 : 0 <= zlen fp) by (unfold zlen; lia).
+  rewrite (wrap64_id (zlen fp)) by (unfold two63z, two31 in *; lia).
+  rewrite wrap64_id by (unfold min_i32, max_i32, two63z, two31 in *; lia).
+  destruct (e - zlen fp <? min_i32); reflexivity.
 Qed.
 
-Lemma new_decimal_scale n e nz sc : min_i32 <= sc <= max_i32 -> e = wrap32 (- sc) ->
-  new_decimal n e nz = {| d_n := n; d_scale := sc; d_negzero := nz |}.
+Lemma parse_mant_dot_ok e ip fp : plain ip -> min_i32 <= e <= max_i32 -> zlen fp <= two32 ->
+  min_i32 <= e - zlen fp ->
+  parse_mant e (ip ++ c_dot :: fp) = parsed (ip ++ fp) (e - zlen fp).
 Proof.
-  intros H ->. unfold new_decimal. f_equal. unfold wrap32, min_i32, max_i32, two31, two32 in *. lia.
+  intros H He Hl Hm. rewrite parse_mant_dot by (try assumption; unfold two63z, two31, two32 in *; lia).
+  destruct (Z.ltb_spec (e - zlen fp) min_i32); [lia|reflexivity].
+Qed.
+
+Lemma new_decimal_scale n e nz sc : min_i32 <= sc <= max_i32 -> wrap32 e = wrap32 (- sc) ->
+  new_decimal n (wrap32 e) nz = {| d_n := n; d_scale := sc; d_negzero := nz && (n =? 0) |}.
+Proof.
+  intros H E. unfold new_decimal. rewrite E. f_equal. unfold wrap32, min_i32, max_i32, two31, two32 in *. lia.
 Qed.
 
 Lemma app_cons_nonnil {A} (a : list A) c b : a ++ c :: b <> [].
@@ -699,24 +715,28 @@ Lemma parse_format_with str sgn c r sc : coef_text str sgn c r -> min_i32 <= sc 
   end.
 Proof.
   intros CT Hsc. pose proof (coef_plain _ _ _ _ CT) as P.
-  assert (FIN : forall e, e = wrap32 (- sc) -> parsed str e =
+  assert (FIN : forall e, wrap32 e = wrap32 (- sc) -> parsed str e =
     match set_string str with
     | None => Err
     | Some n => Ok {| d_n := n; d_scale := sc; d_negzero := (n =? 0) && starts_minus str |}
     end).
-  { intros e He. unfold parsed. destruct (set_string str); [|reflexivity].
-    rewrite (new_decimal_scale _ _ _ sc Hsc He). reflexivity. }
+  { intros e He. unfold parsed. destruct (set_string str) as [n|]; [|reflexivity].
+    rewrite (new_decimal_scale _ _ _ sc Hsc He). do 2 f_equal.
+    destruct (n =? 0), (starts_minus str); reflexivity. }
+  assert (I0 : min_i32 <= 0 <= max_i32) by (unfold min_i32, max_i32; lia).
   unfold format_with.
   destruct (Z.eqb_spec sc 0) as [Z0|NZ].
   { (* "nnn." *)
     rewrite dec_parse_unfold by apply app_cons_nonnil.
     rewrite stage1_noexp by (apply no_dD_dot_plain; [exact P|constructor]). cbn [bind].
-    rewrite parse_mant_dot by exact P. rewrite app_nil_r. apply FIN. subst sc. reflexivity. }
+    rewrite parse_mant_dot_ok by (try assumption; unfold zlen, two32, min_i32; cbn [length]; lia).
+    rewrite app_nil_r. apply FIN. subst sc. reflexivity. }
   destruct (Z.ltb_spec sc 0) as [NEG|POS].
   { (* "nnn d ss" *)
     rewrite dec_parse_unfold by apply app_cons_nonnil.
     rewrite stage1_exp by (try apply plain_no_dD, P; apply wrap32_range). cbn [bind].
-    rewrite parse_mant_nodot by exact P. apply FIN. reflexivity. }
+    rewrite parse_mant_nodot by exact P. apply FIN.
+    unfold wrap32, min_i32, max_i32, two31, two32 in *. lia. }
   pose proof (coef_len _ _ _ _ CT) as LEN. pose proof (coef_starts _ _ _ _ CT) as ST.
   assert (PFX : (if starts_minus str then 2 else 1) = zlen sgn + 1).
   { rewrite ST. destruct CT as [_ [-> | ->] _ _]; reflexivity. }
@@ -725,10 +745,12 @@ Proof.
   { (* "nn.nn" *)
     rewrite dec_parse_unfold by apply app_cons_nonnil.
     rewrite stage1_noexp by (apply no_dD_dot_plain; [apply plain_firstn|apply plain_skipn]; exact P).
-    cbn [bind]. rewrite parse_mant_dot by (apply plain_firstn, P). rewrite firstn_skipn.
-    apply FIN. unfold zlen in *. rewrite skipn_length.
-    assert (Z.of_nat (length str - Z.to_nat (Z.of_nat (length str) - sc)) = sc) by lia.
-    rewrite H. unfold wrap32, min_i32, max_i32, two31, two32 in *. lia. }
+    cbn [bind].
+    assert (SK : zlen (skipn (Z.to_nat (zlen str - sc)) str) = sc).
+    { unfold zlen in *. rewrite skipn_length. lia. }
+    rewrite parse_mant_dot_ok by (try assumption; try apply plain_firstn, P;
+                                  rewrite SK; unfold min_i32, max_i32, two32 in *; lia).
+    rewrite firstn_skipn. apply FIN. rewrite SK. reflexivity. }
   (* "n.nnn d -ss" *)
   assert (E1 : firstn (Z.to_nat (zlen sgn + 1)) str = sgn ++ [c]).
   { destruct CT as [-> [-> | ->] _ _]; reflexivity. }
@@ -743,14 +765,14 @@ Proof.
   destruct (Z.gtb_spec (zlen str) (zlen sgn + 1)) as [LONG|SHORT].
   - rewrite app_assoc. rewrite dec_parse_unfold by apply app_cons_nonnil.
     rewrite stage1_exp by (try exact RNG; apply no_dD_dot_plain; assumption). cbn [bind].
-    rewrite parse_mant_dot by exact P1. rewrite <- STR. apply FIN.
-    unfold wrap32, min_i32, max_i32, two31, two32, zlen in *. lia.
+    rewrite parse_mant_dot_ok by (try assumption; unfold min_i32, max_i32, two32, zlen in *; lia).
+    rewrite <- STR. apply FIN. f_equal. unfold zlen in *. lia.
   - cbn [app]. rewrite dec_parse_unfold by apply app_cons_nonnil.
     rewrite stage1_exp by (try exact RNG; apply plain_no_dD, P1). cbn [bind].
     assert (r = []) by (unfold zlen in *; destruct r; [reflexivity|cbn [length] in *; lia]).
     rewrite H, app_nil_r in STR. rewrite <- STR.
-    rewrite parse_mant_nodot by exact P. apply FIN.
-    rewrite H in LEN. unfold wrap32, min_i32, max_i32, two31, two32, zlen in *. cbn [length] in *. lia.
+    rewrite parse_mant_nodot by exact P. apply FIN. f_equal.
+    rewrite H in LEN. unfold zlen in *. cbn [length] in *. lia.
 Qed.
 
 Lemma text_roundtrip d : dec_wf d -> dec_parse (dec_format d) = Ok d.
@@ -768,6 +790,51 @@ Proof.
   intros Hs Hz. destruct (mant_shape d) as (sgn & c & r & CT & _).
   rewrite dec_format_with, (parse_format_with _ _ _ _ _ CT Hs).
   unfold mant_str. rewrite Hz. reflexivity.
+Qed.
+
+(* ---- the negative-zero flag is only ever set on a zero coefficient ------------------------- *)
+Lemma new_decimal_wf n e nz : dec_wf (new_decimal n e nz).
+Proof.
+  unfold dec_wf, dec_i32, new_decimal. cbn [d_n d_scale d_negzero]. split; [apply wrap32_range|].
+  intros H. apply andb_true_iff in H as [_ H]. lia.
+Qed.
+
+Lemma mk_wf n sc : min_i32 <= sc <= max_i32 -> dec_wf (mk n sc).
+Proof. intros H. split; [exact H|discriminate]. Qed.
+
+(* ParseDecimal(NewDecimal(n, e, nz).String()) = NewDecimal(n, e, nz), for every int32 e *)
+Lemma text_roundtrip_new n e nz : dec_parse (dec_format (new_decimal n e nz)) = Ok (new_decimal n e nz).
+Proof. apply text_roundtrip, new_decimal_wf. Qed.
+
+Lemma dec_parse_wf inp d : dec_parse inp = Ok d -> dec_wf d.
+Proof.
+  destruct inp as [|c0 inp0]; [discriminate|]. rewrite dec_parse_unfold by discriminate.
+  unfold stage1, parse_mant.
+  repeat (match goal with
+          | |- context [match ?x with _ => _ end] => destruct x
+          end; cbn [bind]; try discriminate);
+    intros E; injection E as <-; apply new_decimal_wf.
+Qed.
+
+(* text with a fraction and an exponent: the exponent of the result is exactly e - len(fraction),
+   or the text is rejected; no int32 wrap *)
+Lemma parse_exponent_exact ip fp e : plain ip -> Forall (fun x => is_dD x = false) fp ->
+  min_i32 <= e <= max_i32 -> zlen fp < two63z - two31 ->
+  dec_parse (ip ++ c_dot :: fp ++ c_d :: zstr e) =
+  if e - zlen fp <? min_i32 then Err else parsed (ip ++ fp) (e - zlen fp).
+Proof.
+  intros Pi Pf He Hl.
+  replace (ip ++ c_dot :: fp ++ c_d :: zstr e) with ((ip ++ c_dot :: fp) ++ c_d :: zstr e)
+    by (rewrite <- app_assoc; reflexivity).
+  rewrite dec_parse_unfold by apply app_cons_nonnil.
+  rewrite stage1_exp; [|apply Forall_app; split; [apply plain_no_dD, Pi|constructor; [reflexivity|exact Pf]]|exact He].
+  cbn [bind]. apply parse_mant_dot; assumption.
+Qed.
+
+Lemma parsed_exponent str e d : parsed str e = Ok d -> min_i32 < e <= max_i32 -> coex_exp d = e.
+Proof.
+  unfold parsed. destruct (set_string str); [|discriminate]. intros E H. injection E as <-.
+  unfold coex_exp, new_decimal. cbn [d_scale]. unfold wrap32, min_i32, max_i32, two31, two32 in *. lia.
 Qed.
 
 (* ================================================================================ *)
@@ -887,6 +954,51 @@ Proof.
   intros E. injection E as <-. split; [|reflexivity].
   rewrite wrap32_id by (unfold dec_i32 in Hd; lia). rewrite dec_val_mk.
   replace (- (d_scale d - (ndigits (d_n d) - p))) with (ndigits (d_n d) - p - d_scale d) by lia. reflexivity.
+Qed.
+
+(* ---- every operation keeps the invariant [dec_wf] (int32 scale, flag only on zero) ---------- *)
+Lemma add_wf a b r : dec_i32 a -> dec_i32 b -> add a b = Ok r -> dec_wf r.
+Proof.
+  intros Ha Hb E. destruct (add_exact a b) as (r' & E' & _ & Hs & Hz). rewrite E in E'. injection E' as ->.
+  unfold dec_wf, dec_i32 in *. rewrite Hs, Hz. split; [lia|discriminate].
+Qed.
+
+Lemma sub_wf a b r : dec_i32 a -> dec_i32 b -> sub a b = Ok r -> dec_wf r.
+Proof.
+  intros Ha Hb E. destruct (sub_exact a b) as (r' & E' & _ & Hs & Hz). rewrite E in E'. injection E' as ->.
+  unfold dec_wf, dec_i32 in *. rewrite Hs, Hz. split; [lia|discriminate].
+Qed.
+
+Lemma mul_wf a b r : mul a b = Ok r -> dec_wf r.
+Proof.
+  intros E. pose proof (mul_panics_iff_ok a b r E) as G. destruct (mul_exact a b r E) as (_ & _ & Hs & Hz).
+  unfold dec_wf, dec_i32. rewrite Hs, Hz. split; [exact G|discriminate].
+Qed.
+
+Lemma neg_wf d : dec_i32 d -> dec_wf (neg d).
+Proof. intros H. apply mk_wf, H. Qed.
+
+Lemma abs_wf d : dec_i32 d -> dec_wf (abs d).
+Proof. intros H. apply mk_wf, H. Qed.
+
+Lemma shiftl_wf d k r : shiftl d k = Ok r -> dec_wf r.
+Proof.
+  unfold shiftl. destruct (_ || _); [discriminate|]. intros E. injection E as <-. apply mk_wf, wrap32_range.
+Qed.
+
+Lemma shiftr_wf d k r : shiftr d k = Ok r -> dec_wf r.
+Proof.
+  unfold shiftr. destruct (_ || _); [discriminate|]. intros E. injection E as <-. apply mk_wf, wrap32_range.
+Qed.
+
+Lemma truncate_wf d p r : dec_wf d -> truncate d p = Ok r -> dec_wf r.
+Proof.
+  intros W. unfold truncate.
+  repeat (match goal with
+          | |- context [if ?x then _ else _] => destruct x
+          | |- context [match set_string ?x with _ => _ end] => destruct (set_string x)
+          end; try discriminate);
+    intros E; injection E as <-; try exact W; apply mk_wf, wrap32_range.
 Qed.
 
 (* ================================================================================ *)
